@@ -12,6 +12,9 @@ theorem store_zero (dst src : Bytes) : store dst 0 src = src ++ dst.drop src.len
 theorem store_all (dst src : Bytes) (h : dst.length ≤ src.length) : store dst 0 src = src := by
   rw [store_zero, List.drop_eq_nil_of_le h, List.append_nil]
 
+theorem store_fit (dst src : Bytes) (h : dst.length = src.length) : store dst 0 src = src :=
+  store_all dst src (by omega)
+
 /-- overwriting the tail `b` of `a ++ b` -/
 theorem store_tail (a b src : Bytes) (n : Nat) (hn : n = a.length) (h : b.length ≤ src.length) :
     store (a ++ b) n src = a ++ src := by
